@@ -103,6 +103,15 @@ func checkHeader(ctx *pbt.Ctx, c Header) error {
 	if err := checkAgree(ctx, Scr{How: "header", Script: script}); err != nil {
 		return err
 	}
+	if pre, _, _ := ref.Tokenize(script); true {
+		for _, t := range pre {
+			if t.Op == ref.OpReturn {
+				// a short push completed by Post leaves the rest of Post to be read from the middle
+				// of an instruction, which can yield an OP_RETURN; checkAgree counted the discard
+				return nil
+			}
+		}
+	}
 	defer relieve(len(script))
 	form := map[int]string{-1: "direct", 1: "pushdata1", 2: "pushdata2", 4: "pushdata4"}[c.Form]
 	ctx.Label("declared:" + form + ":" + declClass(c.effectiveDeclared()))
